@@ -562,13 +562,12 @@ func (x *Exec) Write(r Ref, off uint64, data []byte, cntField uint32, stable nt.
 	if !x.S.Unstable && res.Resok.Committed != nt.FILE_SYNC {
 		return x.errf("WRITE committed level %d with unstable writes disabled (want FILE_SYNC)", res.Resok.Committed)
 	}
-	if cnt > 0 {
-		if res.Resok.Committed == nt.UNSTABLE {
-			x.Unflushed = true
-			x.lastUnstable = r.N
-		} else {
-			x.Unflushed = false
-		}
+	if res.Resok.Committed == nt.UNSTABLE {
+		// (also when nothing was written: a server may still have changed, say, the modification time - unstably)
+		x.Unflushed = true
+		x.lastUnstable = r.N
+	} else if cnt > 0 {
+		x.Unflushed = false
 	}
 	if err := x.checkVerf(res.Resok.Verf, "WRITE"); err != nil {
 		return err
